@@ -63,6 +63,7 @@ def run_unit(unit, repo=vgen.REPO, rlimit=None, use_cache=True, keep=None):
         res['reason'] = 'extraction: %s' % e
         return res
     res['items'] = g['items']
+    res['lost'] = [dict(item=i['path'], what=x) for i in g['items'] for x in i.get('lost', [])]
     res['literals'] = g['literals']
     text = g['text']
     key = hashlib.sha256((text + verus_version() + str(rlimit)).encode()).hexdigest()
